@@ -237,10 +237,101 @@ def r25b(ctx, P):
                    "\"%s\" selects %s, whose serde name is not \"%s\"" % (lit, sorted(built), lit), site.loc())
 
 
+def natural_loops(f):
+    """[(header, body set)] from back edges a->h with h dominating a."""
+    loops = {}
+    preds = f.preds()
+    for a in f.reachable():
+        for h in f.succ(a):
+            if f.dominates_block(h, a):
+                body = loops.setdefault(h, {h})
+                st = [a]
+                while st:
+                    x = st.pop()
+                    if x in body:
+                        continue
+                    body.add(x)
+                    st.extend(p for p in preds.get(x, []) if p in f.reachable())
+    return sorted(loops.items())
+
+
+def r25c(ctx, P):
+    rid = "R25.c"
+    ctx.rule(rid, "FLOW (no state carried between the elements a front end translates): wherever the CLI / HTTP / FFI code builds a "
+                  "searchlite_core::api::types value inside a loop, every operand of the struct literal is either loop-invariant "
+                  "(no definition inside the loop) or definitely assigned in the current iteration (every path from the loop header "
+                  "to the literal passes a definition). Otherwise an element inherits what an earlier element set, and the request "
+                  "the front end sends differs from the one the Rust API would get for the same input")
+    n = 0
+    fronts = ("searchlite_cli", "searchlite_http", "searchlite_ffi")
+    for q, f in sorted(P.fns.items()):
+        if f.crate not in fronts or is_test_or_bench(f):
+            continue
+        loops = None
+        defs = None
+        for b, i, st in f.stmts():
+            if st["k"] != "assign" or st["rv"]["k"] != "agg" or not (st["rv"].get("adt") or "").startswith("searchlite_core::api::types::"):
+                continue
+            if loops is None:
+                loops = natural_loops(f)
+                defs = f.defs()
+            inner = [(h, body) for h, body in loops if b in body]
+            if not inner:
+                continue
+            h, body = min(inner, key=lambda x: len(x[1]))
+            n += 1
+            ctx.saw(f)
+            stale = []
+            for o in st["rv"]["ops"]:
+                l = op_local(o)
+                seen = set()
+                # follow plain copies of temporaries to the variable
+                while l is not None and l not in seen:
+                    seen.add(l)
+                    dfs = [d for d in defs.get(l, []) if not d.get("partial")]
+                    if f.locals[l].get("name") or len(dfs) != 1 or dfs[0]["k"] != "assign" or dfs[0]["rv"]["k"] not in ("use", "cast") or \
+                            op_local(dfs[0]["rv"]["a"]) is None:
+                        break
+                    l = op_local(dfs[0]["rv"]["a"])
+                if l is None:
+                    continue
+                dblocks = {d["b"] for d in defs.get(l, []) if d["b"] in body}
+                if not dblocks:
+                    continue          # loop-invariant
+                if b in dblocks:
+                    continue          # defined in the literal's own block (before it: MIR temporaries)
+                # is the literal reachable from the header without passing a definition in this iteration?
+                reach = {h}
+                stk = [h]
+                found = False
+                while stk and not found:
+                    x = stk.pop()
+                    for y in f.succ(x):
+                        if y not in body or y in reach or y == h:
+                            continue
+                        if y in dblocks:
+                            continue
+                        if y == b:
+                            found = True
+                            break
+                        reach.add(y)
+                        stk.append(y)
+                if found:
+                    stale.append(f.locals[l].get("name") or "_%d" % l)
+            adt = st["rv"]["adt"].rsplit("::", 1)[1]
+            ctx.ob(rid, "%s:%s:%s" % (rid, f.short, adt), not stale,
+                   "%s built per element at %s uses only values set for that element" % (adt, Site(f, b, i).loc()) if not stale else
+                   "%s built at %s can use `%s` as left by an EARLIER iteration (assigned inside the loop, but not on every path of "
+                   "the current iteration): an element inherits the previous element's setting" % (adt, Site(f, b, i).loc(), ", ".join(stale)),
+                   Site(f, b, i).loc())
+    ctx.floor(rid, n, 1, "api::types values built inside a loop by a front end (parse_sort)")
+
+
 def run(ctx, progs):
     P = progs.get("default")
     r25a(ctx, P)
     r25b(ctx, P)
+    r25c(ctx, P)
     if ctx.tier == "thorough":
         ctx.config = "features"
         Pf = progs.get("features")
